@@ -3,7 +3,7 @@ from . import shared as S
 from . import alias_rules as A
 
 META = {
-    'claim_added': 'Round 10: R13.11 - the set of names that __strip_extra_attributes exempts is the signature\'s parameters, asked by name (a one-shot iterator makes the answer depend on key order). Also decided: no early exit from the Union member loop; attributes are looked up per declared parameter by name and every present one is judged; Any positions are stripped on every exit; strip_tags re-resolves with constant flags. Round 3: nothing rewrites the composed tree (key order, merge keys) before recognition (R13.7). Round 6 (E14): caches on the code this property is about are invisible - no value that lives in a memo cell (dict / lazily filled attribute / lru_cache) is modified by the code it is handed to, the key of a cell contains every input its value depends on, no mutable parameter default is modified or handed out; given that, the program is analysed as if every lookup missed. Round 11: R13.12 - a construction parks nothing on the per-class Constructor object across the point where nested objects are built (the only call-time write is the exempt loader reference): parked state is overwritten by a nested object of the same class or not depending on where its key stands.',
+    'claim_added': 'Round 10: R13.11 - the set of names that __strip_extra_attributes exempts is the signature\'s parameters, asked by name (a one-shot iterator makes the answer depend on key order). Also decided: no early exit from the Union member loop; attributes are looked up per declared parameter by name and every present one is judged; Any positions are stripped on every exit; strip_tags re-resolves with constant flags. Round 3: nothing rewrites the composed tree (key order, merge keys) before recognition (R13.7). Round 6 (E14): caches on the code this property is about are invisible - no value that lives in a memo cell (dict / lazily filled attribute / lru_cache) is modified by the code it is handed to, the key of a cell contains every input its value depends on, no mutable parameter default is modified or handed out; given that, the program is analysed as if every lookup missed. Round 11: R13.12 - a construction parks nothing on the per-class Constructor object across the point where nested objects are built (the only call-time write is the exempt loader reference): parked state is overwritten by a nested object of the same class or not depending on where its key stands. Round 12: R13.12 covers the whole load path (constructors, loader, recognizer, introspection).',
     'level': 'other',
     'technique': 'static: forbidden-read rule for presentation attributes and a sink rule for source marks (messages and new '
                  'nodes only) with positive controls; decision table of the generic-kind predicates; who-reads-__origin__; '
@@ -52,6 +52,6 @@ def run(ctx):
     # construction parks on the Constructor before that point and reads after it is overwritten by a nested sibling or not
     # depending on where its key stands.
     from . import dumpside as D
-    D.r11_1_calltime_writes(ctx, 'R13.12', modules=('yatiml.constructors',), floor=2)
+    D.r11_1_calltime_writes(ctx, 'R13.12', modules=('yatiml.constructors', 'yatiml.loader', 'yatiml.recognizer', 'yatiml.introspection'), floor=2)
     from . import memo_rules as M
     M.memo_sound(ctx, 'R13.M')
